@@ -267,6 +267,9 @@ func runC15(c *fw.Ctx) {
 	// delayed relative to each other in any way, so this is a legal schedule: it needs all n callbacks in flight at once
 	c.Cases("foreach-async-rendezvous", c.N(30, 1500), false, func(i int, r *rng.R) {
 		n := []int{2, 3, 5, 8, 17, 33, 64, 100}[r.Intn(8)]
+		if !c.Race && i%10 == 3 {
+			n = 10500 // more callbacks in flight at once than a process may have threads (not under the race detector: 8128 goroutines)
+		}
 		procs := []int{1, 1, 2, 4, 16}[r.Intn(5)]
 		onList := r.Bool()
 		// the state of the rest of the process is not the container's business: now and then 12 000 other goroutines are
